@@ -103,7 +103,7 @@ func witnessLines(o *hx.Out, k int, tag string, tx *transaction.Transaction, inv
 		obs = fmt.Sprintf("halt %d %d", gas, depth)
 	}
 	if modelOpcodes(inv) && modelOpcodes(ver) {
-		o.Line(fmt.Sprintf("wcost %d %d %s %s", base, b2i(w.gorgon()), hx.Hex(inv), hx.Hex(ver)), obs)
+		o.Line(fmt.Sprintf("wcost %d %d %s %s %s", base, b2i(w.gorgon()), hx.Hex(validPairs), hx.Hex(inv), hx.Hex(ver)), obs)
 	}
 	// the same witness through VerifyWitness with plenty of gas: only MaxVerificationGas can stop it
 	if canonical && modelOpcodes(inv) && modelOpcodes(ver) {
@@ -280,7 +280,7 @@ func doVariant(o *hx.Out, k int, r *prng.R, m int, ks []*keys.PrivateKey, mForm,
 	which := subset(r, len(ks), mm)
 	sigs := a.sigs(pureWorld().magic, tx, which)
 	tag := fmt.Sprintf("variant:m%d:n%d:%s", mForm, nForm, mut)
-	witnessLines(o, k, tag, tx, invocation(sigs), script, false, nil)
+	witnessLines(o, k, tag, tx, invocation(sigs), script, false, pairsOf(a, which, sigs))
 	o.Count("kind:variant")
 	o.Count("variant:" + mut)
 	if scparser.IsMultiSigContract(script) {
